@@ -173,6 +173,46 @@ fn run_on_unit(comp: &Comp, sink: &mut UnitErrSink, k: usize) -> Result<Outcome,
     })
 }
 
+/// Any other sink flavour: whatever error the sink reported counts as "that error" (tagged with k).
+fn run_on_any<S: BitSink>(comp: &Comp, sink: &mut S, k: usize) -> Result<Outcome, pan::Caught> {
+    pan::catch(|| match comp.write(sink) {
+        Ok(()) => Outcome::Ok,
+        Err(OutputError::Sink(_)) => Outcome::SinkErr(SimSinkError { k }),
+        Err(e) => Outcome::OtherErr(format!("{e}")),
+    })
+}
+
+/// One write of `comp` to a sink of flavour `flavour` that fails as `core` says.
+fn run_flavour(comp: &Comp, flavour: &str, core: Core, k: usize) -> (Result<Outcome, pan::Caught>, Core) {
+    match flavour {
+        "required" => {
+            let mut s = ReqSink(core);
+            let r = run_on(comp, &mut s);
+            (r, s.0)
+        }
+        "required_unit_error" => {
+            let mut s = UnitErrSink(core);
+            let r = run_on_unit(comp, &mut s, k);
+            (r, s.0)
+        }
+        "required_io_error" => {
+            let mut s = crate::sinks::IoErrSink(core);
+            let r = run_on_any(comp, &mut s, k);
+            (r, s.0)
+        }
+        "required_wrapped_io_error" => {
+            let mut s = crate::sinks::WrappedIoSink(core);
+            let r = run_on_any(comp, &mut s, k);
+            (r, s.0)
+        }
+        _ => {
+            let mut s = FullSink(core);
+            let r = run_on(comp, &mut s);
+            (r, s.0)
+        }
+    }
+}
+
 fn clean_bits(comp: &Comp) -> (Vec<u8>, usize) {
     let mut s = ByteSink::new();
     comp.write(&mut s).expect("HARNESS: clean write failed");
@@ -182,20 +222,7 @@ fn clean_bits(comp: &Comp) -> (Vec<u8>, usize) {
 
 /// Executes one case; returns a violation or None. `ops_out` receives the number of sink operations performed.
 pub fn exec_case(comp: &Comp, case: &Case, clean: &BitModel, clean_bytes: &[u8], ops_out: &mut u64) -> Option<Violation> {
-    let core = Core::failing(Some(case.k), case.sticky);
-    let (res, core) = if case.sink == "required" {
-        let mut s = ReqSink(core);
-        let r = run_on(comp, &mut s);
-        (r, s.0)
-    } else if case.sink == "required_unit_error" {
-        let mut s = UnitErrSink(core);
-        let r = run_on_unit(comp, &mut s, case.k);
-        (r, s.0)
-    } else {
-        let mut s = FullSink(core);
-        let r = run_on(comp, &mut s);
-        (r, s.0)
-    };
+    let (res, core) = run_flavour(comp, &case.sink, Core::failing(Some(case.k), case.sticky), case.k);
     *ops_out += core.ops as u64;
     let mk = |class: &str, site: String, message: String, detail: String| {
         Some(Violation {
@@ -243,20 +270,7 @@ pub fn exec_case(comp: &Comp, case: &Case, clean: &BitModel, clean_bytes: &[u8],
     // left behind, the bits this second sink accepts before ITS failure must again be a prefix of the
     // correct bitstream, and it must again get an error back (the property holds for every failing write,
     // not only for the first one on a thread).
-    let core2 = Core::failing(Some(case.k), case.sticky);
-    let (res2, core2) = if case.sink == "required" {
-        let mut s = ReqSink(core2);
-        let r = run_on(comp, &mut s);
-        (r, s.0)
-    } else if case.sink == "required_unit_error" {
-        let mut s = UnitErrSink(core2);
-        let r = run_on_unit(comp, &mut s, case.k);
-        (r, s.0)
-    } else {
-        let mut s = FullSink(core2);
-        let r = run_on(comp, &mut s);
-        (r, s.0)
-    };
+    let (res2, core2) = run_flavour(comp, &case.sink, Core::failing(Some(case.k), case.sticky), case.k);
     *ops_out += core2.ops as u64;
     let _ = clean_bytes;
     match res2 {
@@ -376,7 +390,7 @@ pub fn run(ctx: &crate::RunCtx) -> (Summary, Vec<Violation>) {
                 // not this property's business (C08); noted as a probe only
                 *sum.probes.entry("count_bits_differs_from_written".into()).or_default() += 1;
             }
-            for sink in ["required", "overridden", "required_unit_error"] {
+            for sink in ["required", "overridden", "required_unit_error", "required_io_error", "required_wrapped_io_error"] {
                 let n = on_fresh_thread(|| count_ops(&comp, sink != "overridden"));
                 if n > 6000 {
                     sum.exhaustive = Some(false);
@@ -385,6 +399,10 @@ pub fn run(ctx: &crate::RunCtx) -> (Summary, Vec<Violation>) {
                     }
                 }
                 for sticky in [true, false] {
+                    // (the wrapped flavour differs from the plain io::Error one only in where the io::Error sits)
+                    if sink == "required_wrapped_io_error" && sticky {
+                        continue;
+                    }
                     for k in fault_positions(n) {
                         n_case += 1;
                         if n_case % ctx.nchild != ctx.child {
@@ -399,6 +417,7 @@ pub fn run(ctx: &crate::RunCtx) -> (Summary, Vec<Violation>) {
                             k,
                             prelude: None,
                         };
+                        crate::progress::begin(&|| serde_json::to_value(&case).unwrap());
                         sum.cases += 1;
                         if k > 0 {
                             sum.distinct_nontrivial += 1;
@@ -459,6 +478,7 @@ pub fn run(ctx: &crate::RunCtx) -> (Summary, Vec<Violation>) {
         if let Some(item) = corpus::try_build(ctx.seed, 4) {
             // on a thread of its own, so that the replay (a fresh process, a fresh thread) sees the same history
             let case = json!({"endurance": {"rounds": 70_000}, "corpus_idx": 4, "spec": item.spec});
+            crate::progress::begin(&|| case.clone());
             let (n, ops, v) = on_fresh_thread(|| endurance(&item, 70_000, &case));
             sum.cases += n;
             sum.seam_ops += ops;
